@@ -1,4 +1,698 @@
-import CTM.Model.Tree
+/-
+  C10 — the taxonomy stays a strict tree under construction and transformation.
+
+  Theorems about the executable model `CTM/Model/Tree.lean` (which mirrors
+  taxonomy/utils.py + taxonomy/taxonomy_tree.py of cell_type_mapper), for ALL
+  trees: no bound on depth, width or number of rows.
+
+  Vocabulary (CTM/Lemmas/TreeDefs.lean):
+    `DictOK t`  every Python dict of the tree has distinct keys
+    `WF t`      `validate t = .ok ()`, `t.hierarchy.Nodup`, `t.hierarchy ≠ []`, `DictOK t`
+    `(pl, cl) ∈ levelPairs t.hierarchy`   cl is the level right below pl
+    `t.level l` the dict of level l (association list node ↦ children / rows),
+    `t.nodesAt l` its keys, `t.entry l n` = `tree[l][n]`
+-/
+import CTM.Lemmas.Tree
+import CTM.Lemmas.TreeLca
+import CTM.Generated.TreeConsts
+
 namespace CTM.C10
-theorem placeholder_true : True := trivial
+open CTM CTM.RawTree
+
+/-! ### a concrete tree for the non-vacuity examples
+
+levels 0 > 1 > 2 (2 = leaf level); nodes 10,11 / 20,21,22 / 30..33; rows 0..4 -/
+def exTree : RawTree :=
+  { hierarchy := [0, 1, 2]
+    levels := [(1, [(21, [31, 32]), (20, [30]), (22, [33])]),
+               (0, [(10, [21, 20]), (11, [22])]),
+               (2, [(30, [0]), (31, [1, 2]), (32, []), (33, [4, 3])])] }
+
+theorem exTree_wf_test : WF exTree :=
+  ⟨by rfl, by decide, by decide, dictOK_of_b (by decide)⟩
+
+/-! ### the validator -/
+
+/-- *"A taxonomy is accepted only if every node below the top level has exactly
+one parent, every listed child exists and no reference cell belongs to two
+leaves"* — for every accepted tree (Python dicts have distinct keys), and every
+pair of adjacent levels `pl > cl`:
+ 1. every listed child is a key of the next level; every node of `pl` has at
+    least one child (the `fix:` commit 876e36e);
+ 2. every node of `cl` is listed exactly once in all the child lists of `pl`
+    together (one parent, listed once);
+ 3. that parent is unique as a node: `∃! p`;
+and no row occurs twice in the leaf level's row lists (neither in two leaves
+nor twice in one); the level keys are exactly the hierarchy. -/
+theorem validate_sound (t : RawTree) (d : DictOK t) (hv : t.validate = .ok ()) :
+    (∀ pl cl, (pl, cl) ∈ levelPairs t.hierarchy →
+      (∀ p, p ∈ t.nodesAt pl → ∀ c, c ∈ t.entry pl p → c ∈ t.nodesAt cl) ∧
+      (∀ p, p ∈ t.nodesAt pl → t.entry pl p ≠ []) ∧
+      (∀ c, c ∈ t.nodesAt cl → ((t.level pl).flatMap (·.2)).count c = 1) ∧
+      (∀ c, c ∈ t.nodesAt cl → ∃ p, (p ∈ t.nodesAt pl ∧ c ∈ t.entry pl p) ∧
+          ∀ p', (p' ∈ t.nodesAt pl ∧ c ∈ t.entry pl p') → p' = p)) ∧
+    t.allRows.Nodup ∧
+    (∀ k, k ∈ t.levels.map (·.1) ↔ k ∈ t.hierarchy) := by
+  have s := strict_of_validate hv
+  refine ⟨fun pl cl hpc => ?_, s.rowsNodup, fun k => ⟨s.keysSub k, s.hierSub k⟩⟩
+  obtain ⟨i, hi, rfl, rfl⟩ := idx_of_mem_levelPairs hpc
+  refine ⟨fun p hp c hc => s.entry_sub hi hp hc,
+    fun p hp => s.childNe _ _ hpc p _ (mem_level_entry hp), fun c hc => ?_, fun c hc => ?_⟩
+  · rw [flatMap_snd_eq_flatMap_entry d]
+    have hnd := s.children_nodup hi (d.nodesAt_nodup _) (fun _ h => h)
+    rw [hnd.count, if_pos ((s.children_perm_next d hi).mem_iff.2 hc)]
+  · obtain ⟨p, cs, hp, hcs⟩ := s.hasParent _ _ hpc c hc
+    have hpn : p ∈ t.nodesAt t.hierarchy[i] := mem_nodesAt.2 ⟨cs, hp⟩
+    have hce : c ∈ t.entry t.hierarchy[i] p := by rw [entry_of_mem d hp]; exact hcs
+    exact ⟨p, ⟨hpn, hce⟩, fun p' hp' => s.entry_disjoint hi hp'.1 hpn hp'.2 hce⟩
+
+example : exTree.validate = .ok () ∧ DictOK exTree := ⟨by rfl, dictOK_of_b (by decide)⟩
+
+/-- No reference cell belongs to two leaves, in the words of the statement. -/
+theorem validate_rows_one_leaf (t : RawTree) (d : DictOK t) (hne : t.hierarchy ≠ [])
+    (hv : t.validate = .ok ()) (n₁ n₂ : Node) (r : Nat)
+    (h₁ : n₁ ∈ t.nodesAt (t.hierarchy.getLast hne)) (h₂ : n₂ ∈ t.nodesAt (t.hierarchy.getLast hne))
+    (hr₁ : r ∈ t.entry (t.hierarchy.getLast hne) n₁) (hr₂ : r ∈ t.entry (t.hierarchy.getLast hne) n₂) :
+    n₁ = n₂ := by
+  have s := strict_of_validate hv
+  have hrows := s.rowsNodup
+  have hll : t.leafLevel = some (t.hierarchy.getLast hne) := by
+    simp [leafLevel, List.getLast?_eq_some_getLast hne]
+  simp only [allRows, hll] at hrows
+  rw [flatMap_snd_eq_flatMap_entry d] at hrows
+  unfold List.Nodup at hrows
+  rw [List.pairwise_flatMap] at hrows
+  have hp := hrows.2
+  exact if h : n₁ = n₂ then h else absurd rfl (pairwise_disj hp h₁ h₂ h hr₁ hr₂)
+where
+  pairwise_disj {l : List Node} {f : Node → List Nat}
+      (hp : l.Pairwise (fun a₁ a₂ => ∀ x, x ∈ f a₁ → ∀ y, y ∈ f a₂ → x ≠ y))
+      {a b : Node} (ha : a ∈ l) (hb : b ∈ l) (hab : a ≠ b) {r : Nat} (hra : r ∈ f a) (hrb : r ∈ f b) :
+      r ≠ r := by
+    induction l with
+    | nil => cases ha
+    | cons x xs ih =>
+      rw [List.pairwise_cons] at hp
+      rcases List.mem_cons.1 ha with rfl | ha'
+      · rcases List.mem_cons.1 hb with rfl | hb'
+        · exact absurd rfl hab
+        · exact hp.1 b hb' r hra r hrb
+      · rcases List.mem_cons.1 hb with rfl | hb'
+        · exact (hp.1 a ha' r hrb r hra)
+        · exact ih hp.2 ha' hb'
+
+/-- The validator decides exactly the strict-tree specification `Strict`
+(CTM/Lemmas/TreeDefs.lean: key set = hierarchy, string node names, every listed
+child exists, no orphan, no second parent, no repeated child, no repeated row):
+nothing less is accepted, and — for distinct level names — nothing more is
+demanded beyond a non-empty hierarchy (the code evaluates `hierarchy[-1]`). -/
+theorem validate_iff_strict (t : RawTree) (hn : t.hierarchy.Nodup) :
+    t.validate = .ok () ↔ Strict t ∧ t.hierarchy ≠ [] :=
+  validate_ok_iff hn
+
+example : exTree.hierarchy.Nodup := by decide
+
+/-! ### each one-edit corruption class is rejected
+
+`∃ e, t.validate = .error e` is `t.validate ≠ .ok ()`: which error class is
+reported depends on which test of the validator fires first. -/
+
+/-- a listed child that is not a key of the next level -/
+theorem validate_rejects_missing_child_key (t : RawTree) {pl cl : Level} {p c : Node}
+    {cs : List Node} (hm : (pl, cl) ∈ levelPairs t.hierarchy) (hp : (p, cs) ∈ t.level pl)
+    (hc : c ∈ cs) (hnot : c ∉ t.nodesAt cl) : ∃ e, t.validate = .error e :=
+  rejects_missing_child hm hp hc hnot
+
+example : ({ exTree with levels := exTree.levels.map (fun (l, m) =>
+    if l = 1 then (l, m.filter (fun e => e.1 != 20)) else (l, m)) } : RawTree).validate
+    = .error .missingChild := by rfl
+
+/-- a node below the top level that no parent lists -/
+theorem validate_rejects_orphan (t : RawTree) {pl cl : Level} {c : Node}
+    (hm : (pl, cl) ∈ levelPairs t.hierarchy) (hc : c ∈ t.nodesAt cl)
+    (hnot : ¬ ∃ p cs, (p, cs) ∈ t.level pl ∧ c ∈ cs) : ∃ e, t.validate = .error e :=
+  rejects_orphan hm hc hnot
+
+example : ({ exTree with levels := exTree.levels.map (fun (l, m) =>
+    if l = 1 then (l, m ++ [(29, [])]) else (l, m)) } : RawTree).validate
+    = .error .orphan := by rfl
+
+/-- a node listed by two different parents -/
+theorem validate_rejects_second_parent (t : RawTree) {pl cl : Level} {p₁ p₂ c : Node}
+    {cs₁ cs₂ : List Node} (hm : (pl, cl) ∈ levelPairs t.hierarchy) (h₁ : (p₁, cs₁) ∈ t.level pl)
+    (h₂ : (p₂, cs₂) ∈ t.level pl) (hc₁ : c ∈ cs₁) (hc₂ : c ∈ cs₂) (hne : p₁ ≠ p₂) :
+    ∃ e, t.validate = .error e :=
+  rejects_two_parents hm h₁ h₂ hc₁ hc₂ hne
+
+example : ({ exTree with levels := exTree.levels.map (fun (l, m) =>
+    if l = 0 then (l, [(10, [21, 20]), (11, [22, 20])]) else (l, m)) } : RawTree).validate
+    = .error .twoParents := by rfl
+
+/-- a parent that lists the same child twice (defect D5 of the pinned tree,
+fixed in /repo by the `fix:` commit; `validateWith false` is the old validator) -/
+theorem validate_rejects_repeated_child (t : RawTree) {pl cl : Level} {p : Node} {cs : List Node}
+    (hm : (pl, cl) ∈ levelPairs t.hierarchy) (hp : (p, cs) ∈ t.level pl) (hd : ¬ cs.Nodup) :
+    ∃ e, t.validate = .error e :=
+  rejects_repeated_child hm hp hd
+
+example : ({ exTree with levels := exTree.levels.map (fun (l, m) =>
+    if l = 0 then (l, [(10, [21, 20, 21]), (11, [22])]) else (l, m)) } : RawTree).validate
+    = .error .repeatedChild := by rfl
+
+/-- a node above the leaf level with an empty child list -/
+theorem validate_rejects_childless_parent (t : RawTree) {pl cl : Level} {p : Node}
+    (hm : (pl, cl) ∈ levelPairs t.hierarchy) (hp : (p, []) ∈ t.level pl) :
+    ∃ e, t.validate = .error e :=
+  rejects_childless_parent hm hp
+
+example : ({ exTree with levels := exTree.levels.map (fun (l, m) =>
+    if l = 0 then (l, m ++ [(12, [])]) else (l, m)) } : RawTree).validate
+    = .error .noChildren ∧
+  -- emptying a child list orphans the former children: the orphan test fires first
+  ({ exTree with levels := exTree.levels.map (fun (l, m) =>
+    if l = 0 then (l, [(10, [21, 20]), (11, [])]) else (l, m)) } : RawTree).validate
+    = .error .orphan := by decide
+
+/-- a reference row listed twice (in two leaves or twice in one) -/
+theorem validate_rejects_repeated_row (t : RawTree) (hd : ¬ t.allRows.Nodup) :
+    ∃ e, t.validate = .error e :=
+  rejects_dup_rows hd
+
+example : ({ exTree with levels := exTree.levels.map (fun (l, m) =>
+    if l = 2 then (l, [(30, [0]), (31, [1, 2]), (32, [1]), (33, [4, 3])]) else (l, m)) } : RawTree).validate
+    = .error .dupRows := by rfl
+
+/-- a level dict whose key is not in the hierarchy (stray key / a level the
+hierarchy no longer lists) -/
+theorem validate_rejects_stray_key (t : RawTree) (hh : t.hasHierarchy = true) {k : Level}
+    (hk : k ∈ t.levels.map (·.1)) (hnot : k ∉ t.hierarchy) : t.validate = .error .badKeys :=
+  rejects_stray_key hh hk hnot
+
+example : ({ exTree with hierarchy := [0, 1] } : RawTree).validate = .error .badKeys := by rfl
+
+/-- a hierarchy entry without a level dict (ghost level) -/
+theorem validate_rejects_ghost_level (t : RawTree) (hh : t.hasHierarchy = true) {k : Level}
+    (hk : k ∈ t.hierarchy) (hnot : k ∉ t.levels.map (·.1)) : t.validate = .error .badKeys :=
+  rejects_ghost_level hh hk hnot
+
+example : ({ exTree with hierarchy := [0, 1, 2, 7] } : RawTree).validate = .error .badKeys := by rfl
+
+/-- no `hierarchy` key at all -/
+theorem validate_rejects_no_hierarchy (t : RawTree) (h : t.hasHierarchy = false) :
+    t.validate = .error .noHierarchy :=
+  rejects_no_hierarchy h
+
+example : ({ exTree with hasHierarchy := false } : RawTree).validate = .error .noHierarchy := by rfl
+
+/-- a node name that is not a `str` -/
+theorem validate_rejects_non_str_node (t : RawTree) (hh : t.hasHierarchy = true)
+    (hk : t.keysMatch = true) (h : t.nodesAreStr = false) : t.validate = .error .nonStrNode :=
+  rejects_non_str_node hh hk h
+
+example : ({ exTree with nodesAreStr := false } : RawTree).validate = .error .nonStrNode := by rfl
+
+/-! ### leaves -/
+
+/-- *"the descendant leaves of a node's children partition the node's leaves"*:
+for a node `p` of a non-leaf level `pl` (children at level `cl`),
+ 1. the concatenated `as_leaves` lists of its children are a permutation of its
+    own `as_leaves` list (union, with multiplicity),
+ 2. which has no duplicate — so the children's lists are duplicate free and
+ 3. pairwise disjoint. -/
+theorem leaves_partition (t : RawTree) (w : WF t) {pl cl : Level}
+    (hpc : (pl, cl) ∈ levelPairs t.hierarchy) {p : Node} (hp : p ∈ t.nodesAt pl) :
+    ((t.entry pl p).flatMap (t.asLeaves cl)).Perm (t.asLeaves pl p) ∧
+    (t.asLeaves pl p).Nodup ∧
+    (t.entry pl p).Pairwise (fun c₁ c₂ => ∀ a, a ∈ t.asLeaves cl c₁ → a ∉ t.asLeaves cl c₂) := by
+  have s := strict_of_validate w.valid
+  obtain ⟨i, hi, rfl, rfl⟩ := idx_of_mem_levelPairs hpc
+  have hperm := asLeaves_perm_children w.hNodup hi p
+  have hnd := asLeaves_nodup s w.hNodup (by omega) hp
+  refine ⟨hperm.symm, hnd, ?_⟩
+  have h2 := hperm.nodup hnd
+  unfold List.Nodup at h2
+  rw [List.pairwise_flatMap] at h2
+  exact h2.2.imp (fun h a ha hb => h a ha a hb rfl)
+
+example : exTree.asLeaves 0 10 = [30, 31, 32] ∧ exTree.entry 0 10 = [21, 20] ∧
+    exTree.asLeaves 1 21 = [31, 32] ∧ exTree.asLeaves 1 20 = [30] := by decide
+
+/-- At every level the `as_leaves` lists of the level's nodes partition the
+leaf level: every leaf lies under exactly one node of each level. -/
+theorem leaves_partition_level (t : RawTree) (w : WF t) {l : Level} (hl : l ∈ t.hierarchy) :
+    ((t.nodesAt l).flatMap (t.asLeaves l)).Perm (t.nodesAt (t.hierarchy.getLast w.hNe)) ∧
+    (t.nodesAt (t.hierarchy.getLast w.hNe)).Nodup := by
+  have s := strict_of_validate w.valid
+  obtain ⟨i, hi, rfl⟩ := List.mem_iff_getElem.1 hl
+  have := asLeaves_cover s w.dict w.hNodup hi
+  rw [List.getLast_eq_getElem]
+  exact ⟨this, w.dict.nodesAt_nodup _⟩
+
+example : (exTree.nodesAt 0).flatMap (exTree.asLeaves 0) = [30, 31, 32, 33] ∧
+    exTree.nodesAt 2 = [30, 31, 32, 33] := by decide
+
+/-- Every node of an accepted tree has at least one leaf below it (every node
+above the leaf level has a child), so no `as_leaves` list is empty. -/
+theorem leaves_nonempty (t : RawTree) (w : WF t) {l : Level} (hl : l ∈ t.hierarchy)
+    {n : Node} (hn : n ∈ t.nodesAt l) : t.asLeaves l n ≠ [] := by
+  obtain ⟨i, hi, rfl⟩ := List.mem_iff_getElem.1 hl
+  exact asLeaves_ne_nil (strict_of_validate w.valid) w.hNodup hi hn
+
+example : 11 ∈ exTree.nodesAt 0 ∧ exTree.asLeaves 0 11 = [33] := by decide
+
+/-! ### parents and children -/
+
+/-- *"parent and child queries are mutually inverse"*: for adjacent levels
+`pl > cl`, `c` is among `children(pl, p)` iff `parents(cl, c)[pl] == p`, iff the
+child→parent table maps `c` to `p`. -/
+theorem parent_child_inverse (t : RawTree) (w : WF t) {pl cl : Level}
+    (hpc : (pl, cl) ∈ levelPairs t.hierarchy) (p c : Node) (cs : List Node)
+    (hcs : t.children (some (pl, p)) = .ok cs) :
+    (c ∈ cs ↔ (t.parents cl c).lookup pl = some p) ∧
+    (c ∈ cs ↔ t.childToParent cl c = some p) := by
+  have s := strict_of_validate w.valid
+  obtain ⟨i, hi, rfl, rfl⟩ := idx_of_mem_levelPairs hpc
+  have hpn := (children_some_ok_iff.1 hcs).2
+  obtain ⟨hpn, rfl⟩ := hpn
+  have h2 : c ∈ t.entry t.hierarchy[i] p ↔ t.childToParent t.hierarchy[i+1] c = some p := by
+    rw [childToParent_eq_some_iff s w.hNodup hi, isChild_iff w.dict]
+    exact ⟨fun h => ⟨hpn, h⟩, fun h => h.2⟩
+  refine ⟨?_, h2⟩
+  rw [h2]
+  cases hq : t.childToParent t.hierarchy[i+1] c with
+  | none =>
+    have : t.parents t.hierarchy[i+1] c = [] := by
+      unfold parents
+      obtain ⟨f, hf⟩ : ∃ f, t.hierarchy.length = f + 1 := ⟨t.hierarchy.length - 1, by omega⟩
+      rw [hf]
+      simp [parentsAux, parentLevel_succ w.hNodup hi, hq]
+    simp [this]
+  | some q =>
+    rw [parents_succ' s w.hNodup hi hq]
+    simp [List.lookup]
+
+example : exTree.children (some (0, 10)) = .ok [21, 20] ∧
+    (exTree.parents 1 21).lookup 0 = some 10 ∧ exTree.parents 2 31 = [(1, 21), (0, 10)] := by decide
+
+/-- Every node below the top level has exactly one parent, `parents` lists one
+ancestor for each level above (nearest first) and the node is among the
+children of its parent. -/
+theorem parents_total (t : RawTree) (w : WF t) {pl cl : Level}
+    (hpc : (pl, cl) ∈ levelPairs t.hierarchy) {c : Node} (hc : c ∈ t.nodesAt cl) :
+    ∃ p, t.childToParent cl c = some p ∧ p ∈ t.nodesAt pl ∧ c ∈ t.entry pl p ∧
+      t.parents cl c = (pl, p) :: t.parents pl p := by
+  have s := strict_of_validate w.valid
+  obtain ⟨i, hi, rfl, rfl⟩ := idx_of_mem_levelPairs hpc
+  obtain ⟨p, hp, hpm⟩ := childToParent_isSome s w.hNodup hi hc
+  refine ⟨p, hp, hpm, ?_, parents_succ s w.hNodup hi hc hp⟩
+  exact ((isChild_iff w.dict).1 ((childToParent_eq_some_iff s w.hNodup hi c p).1 hp)).2
+
+/-- the levels listed by `parents(l, n)` are exactly the levels above `l`,
+nearest first -/
+theorem parents_levels_above (t : RawTree) (w : WF t) {i : Nat} (hi : i < t.hierarchy.length)
+    {n : Node} (hmem : n ∈ t.nodesAt t.hierarchy[i]) :
+    (t.parents t.hierarchy[i] n).map (·.1) = (t.hierarchy.take i).reverse :=
+  parents_levels (strict_of_validate w.valid) w.hNodup i hi n hmem
+
+/-! ### leaf pairs to discriminate -/
+
+/-- *"The leaf pairs to be discriminated under a parent are exactly the
+unordered pairs of leaves lying under two different children of that parent,
+each listed once."*  `parent = none` is the root (children = the top-level
+nodes); `sibs` are the children of the parent, `cl` the level they live at.
+The list returned by `leaves_to_compare(parent)` has no duplicate, and `(a, b)`
+is in it iff `a < b` and `a`, `b` lie under two different children. -/
+theorem pairs_exact (t : RawTree) (w : WF t) (parent : Option (Level × Node))
+    (sibs : List Node) (cl : Level) (hs : t.children parent = .ok sibs)
+    (hcl : t.levelUnder parent = some cl) :
+    (t.leafPairs parent).Nodup ∧
+    ∀ a b, (a, b) ∈ t.leafPairs parent ↔
+      a < b ∧ ∃ s₀ s₁, s₀ ∈ sibs ∧ s₁ ∈ sibs ∧ s₀ ≠ s₁ ∧
+        a ∈ t.asLeaves cl s₀ ∧ b ∈ t.asLeaves cl s₁ := by
+  have s := strict_of_validate w.valid
+  have hlen := List.length_pos_iff.2 w.hNe
+  -- in both cases the pairs are `crossPairs` over duplicate-free disjoint leaf lists
+  suffices h : t.leafPairs parent = crossPairs (t.asLeaves cl) sibs ∧
+      (sibs.flatMap (t.asLeaves cl)).Nodup by
+    rw [h.1]
+    exact ⟨crossPairs_nodup _ _ h.2, fun a b => mem_crossPairs _ _ h.2 a b⟩
+  cases parent with
+  | none =>
+    have h0 : t.hierarchy.head? = some t.hierarchy[0] := by
+      rw [List.head?_eq_getElem?]; exact List.getElem?_eq_getElem hlen
+    simp only [levelUnder, h0, Option.some.injEq] at hcl
+    subst hcl
+    simp only [children, h0] at hs
+    cases hs
+    exact ⟨leafPairs_root _ h0,
+      asLeaves_flatMap_nodup s w.hNodup hlen (w.dict.nodesAt_nodup _) (fun _ h => h)⟩
+  | some ln =>
+    obtain ⟨l, n⟩ := ln
+    simp only [levelUnder] at hcl
+    have hln := children_some_ok_iff.1 hs
+    have hln : l ∈ t.hierarchy ∧ n ∈ t.nodesAt l ∧ sibs = t.entry l n :=
+      ⟨s.keysSub l hln.1, hln.2⟩
+    obtain ⟨hl, hnm, rfl⟩ := hln
+    obtain ⟨i, hi, rfl⟩ := List.mem_iff_getElem.1 hl
+    rw [childLevel_getElem w.hNodup hi] at hcl
+    have hi1 : i + 1 < t.hierarchy.length := by
+      rcases Nat.lt_or_ge (i+1) t.hierarchy.length with h | h
+      · exact h
+      · rw [List.getElem?_eq_none h] at hcl; cases hcl
+    rw [List.getElem?_eq_getElem hi1] at hcl
+    cases hcl
+    have hleaf : (some t.hierarchy[i] == t.leafLevel) = false := by
+      rw [leafLevel_eq w.hNe]
+      simp only [beq_eq_false_iff_ne, ne_eq, Option.some.injEq]
+      intro he
+      have := (List.getElem_inj w.hNodup).1 he
+      omega
+    refine ⟨leafPairs_node n hleaf (by rw [childLevel_getElem w.hNodup hi]; exact List.getElem?_eq_getElem hi1), ?_⟩
+    exact asLeaves_flatMap_nodup s w.hNodup hi1 (s.entry_nodup hi1 hnm)
+      (fun c hc => s.entry_sub hi1 hnm hc)
+
+example : exTree.leafPairs none = [(30, 33), (31, 33), (32, 33)] ∧
+    exTree.leafPairs (some (0, 10)) = [(30, 31), (30, 32)] ∧
+    exTree.children (some (0, 10)) = .ok [21, 20] ∧ exTree.levelUnder (some (0, 10)) = some 1 := by
+  decide
+
+/-- each unordered pair is listed exactly once (count form of `pairs_exact`) -/
+theorem pairs_count (t : RawTree) (w : WF t) (parent : Option (Level × Node))
+    (sibs : List Node) (cl : Level) (hs : t.children parent = .ok sibs)
+    (hcl : t.levelUnder parent = some cl) (a b : Node) :
+    (t.leafPairs parent).count (a, b) ≤ 1 ∧ (t.leafPairs parent).count (b, a) ≤ 1 ∧
+    ((a, b) ∈ t.leafPairs parent → (b, a) ∉ t.leafPairs parent) := by
+  obtain ⟨hnd, hmem⟩ := pairs_exact t w parent sibs cl hs hcl
+  refine ⟨List.nodup_iff_count.1 hnd _, List.nodup_iff_count.1 hnd _, fun h1 h2 => ?_⟩
+  have hab := ((hmem a b).1 h1).1
+  have hba := ((hmem b a).1 h2).1
+  exact Nat.lt_irrefl _ (Nat.lt_trans hab hba)
+
+/-- no pair for a parent with a single child -/
+theorem pairs_single_child (t : RawTree) (parent : Option (Level × Node)) (c : Node)
+    (hs : t.children parent = .ok [c]) : t.leafPairs parent = [] := by
+  cases parent with
+  | none =>
+    obtain ⟨l0, h0, he⟩ := children_none_ok_iff.1 hs
+    rw [leafPairs_root l0 h0, ← he]
+    rfl
+  | some ln =>
+    obtain ⟨l, n⟩ := ln
+    obtain ⟨_, _, he⟩ := children_some_ok_iff.1 hs
+    simp only [leafPairs]
+    split
+    · rfl
+    · rename_i cl sibs hsome
+      split at hsome
+      · cases hsome
+      · cases hc : t.childLevel l with
+        | none => simp [hc] at hsome
+        | some cl' =>
+          simp only [hc, Option.map_some, Option.some.injEq, Prod.mk.injEq] at hsome
+          obtain ⟨_, rfl⟩ := hsome
+          simp [← he, combos2]
+
+example : exTree.children (some (0, 11)) = .ok [22] ∧ exTree.leafPairs (some (0, 11)) = [] := by
+  decide
+
+/-- no pair at the leaf level -/
+theorem pairs_leaf_level (t : RawTree) (l : Level) (n : Node) (hl : t.leafLevel = some l) :
+    t.leafPairs (some (l, n)) = [] :=
+  leafPairs_leaf n hl
+
+example : exTree.leafLevel = some 2 ∧ exTree.leafPairs (some (2, 31)) = [] := by decide
+
+/-- Taken over all parents of `all_parents` (the root and every node above the
+leaf level), every unordered pair of distinct leaves is listed exactly once:
+under their lowest common ancestor and under no other parent. -/
+theorem pairs_cover_once (t : RawTree) (w : WF t) {a b : Node}
+    (ha : a ∈ t.nodesAt (t.hierarchy.getLast w.hNe))
+    (hb : b ∈ t.nodesAt (t.hierarchy.getLast w.hNe)) (hab : a < b) :
+    ∃ P, P ∈ t.allParents ∧ (a, b) ∈ t.leafPairs P ∧
+      ∀ Q, Q ∈ t.allParents → (a, b) ∈ t.leafPairs Q → Q = P := by
+  rw [getLast_eq_leafIdx w] at ha hb
+  obtain ⟨P, hP, hmem⟩ := pairs_cover w ha hb hab
+  exact ⟨P, hP, hmem, fun Q hQ h2 => pairs_cover_unique w ha hb hQ hP h2 hmem⟩
+
+example : exTree.allParents = [none, some (0, 10), some (0, 11), some (1, 21), some (1, 20),
+      some (1, 22)] ∧
+    exTree.allParents.map exTree.leafPairs =
+      [[(30, 33), (31, 33), (32, 33)], [(30, 31), (30, 32)], [], [(31, 32)], [], []] := by decide
+
+/-! ### flatten, drop_level -/
+
+/-- *"Flattening … preserve[s] the leaf set and each leaf's ancestor at every
+remaining level"*: `flatten()` of a well-formed tree is again well formed (so
+the constructor's validation passes), its only level is the leaf level, whose
+dict (leaf names, their order, their rows) is untouched; the only remaining
+level is the leaf level itself, where every leaf is its own ancestor before and
+after; and `as_leaves` of a leaf is the leaf. -/
+theorem flatten_preserves (t : RawTree) (w : WF t) :
+    WF t.flatten ∧
+    t.flatten.hierarchy = [t.hierarchy.getLast w.hNe] ∧
+    t.flatten.level (t.hierarchy.getLast w.hNe) = t.level (t.hierarchy.getLast w.hNe) ∧
+    t.flatten.allRows = t.allRows ∧
+    (∀ n, t.flatten.ancestorAt (t.hierarchy.getLast w.hNe) n (t.hierarchy.getLast w.hNe) =
+        t.ancestorAt (t.hierarchy.getLast w.hNe) n (t.hierarchy.getLast w.hNe)) ∧
+    (∀ n, t.flatten.asLeaves (t.hierarchy.getLast w.hNe) n = [n]) := by
+  have hl := w.leafLevel_getLast
+  exact ⟨flatten_wf w, flatten_hierarchy hl, flatten_level_leaf w.hNodup hl,
+    flatten_allRows w.hNodup, fun n => by rw [ancestorAt_self, ancestorAt_self],
+    fun n => flatten_asLeaves hl n⟩
+
+example : exTree.flatten = ⟨true, [2],
+    [(2, [(30, [0]), (31, [1, 2]), (32, []), (33, [4, 3])])], true⟩ := by decide
+
+/-- *"dropping any level … preserve[s] the leaf set and each leaf's ancestor at
+every remaining level"*: for a well-formed tree with at least two levels and
+any non-leaf level `h[i]`, `drop_level(h[i])` succeeds — in particular the
+re-validation in the constructor of the new tree never fails —, the result is
+well formed, its hierarchy is the old one without `h[i]`, the leaf level's dict
+(leaf names, order, rows) is untouched, and every leaf has the same ancestor as
+before at every remaining level. -/
+theorem drop_preserves (t : RawTree) (w : WF t) {i : Nat} (hi : i + 1 < t.hierarchy.length)
+    (allowLeaf : Bool) :
+    ∃ t', t.dropLevel (t.hierarchy[i]'(by omega)) allowLeaf = .ok t' ∧
+      WF t' ∧
+      t'.hierarchy = t.hierarchy.eraseIdx i ∧
+      t'.level (t.hierarchy.getLast w.hNe) = t.level (t.hierarchy.getLast w.hNe) ∧
+      t'.allRows = t.allRows ∧
+      (∀ n, n ∈ t.nodesAt (t.hierarchy.getLast w.hNe) → ∀ l, l ∈ t'.hierarchy →
+        t'.ancestorAt (t.hierarchy.getLast w.hNe) n l =
+          t.ancestorAt (t.hierarchy.getLast w.hNe) n l) ∧
+      (∀ l, l ∈ t'.hierarchy → ∀ n, (t'.asLeaves l n).Perm (t.asLeaves l n)) := by
+  have hi' : i < t.hierarchy.length := by omega
+  obtain ⟨t', hd, hraw, w'⟩ := dropLevel_eq_ok w hi' (by omega) (allowLeaf := allowLeaf) (Or.inr hi)
+  have hh := drop_hierarchy w.hNodup hi' hraw
+  refine ⟨t', hd, w', hh, ?_, drop_allRows_nonleaf w.hNodup hi' hraw hi, ?_, ?_⟩
+  · have := drop_level_leaf w.hNodup hi' hraw hi
+    rw [List.getLast_eq_getElem]
+    exact this
+  · intro n hn l hl
+    exact drop_ancestorAt w hi' hi hraw w.leafLevel_getLast hn hl
+  · intro l hl n
+    rw [hh] at hl
+    have hlt : l ∈ t.hierarchy := (List.eraseIdx_sublist _ _).subset hl
+    obtain ⟨j, hj, rfl⟩ := List.mem_iff_getElem.1 hlt
+    have hji : j ≠ i := by
+      rintro rfl
+      rw [List.mem_eraseIdx_iff_getElem] at hl
+      obtain ⟨k, hk, hki, hke⟩ := hl
+      exact hki ((List.getElem_inj w.hNodup).1 hke)
+    exact drop_asLeaves w.hNodup hi' hraw hi hj hji n
+
+example : exTree.dropLevel 1 = .ok ⟨true, [0, 2],
+      [(0, [(10, [31, 32, 30]), (11, [33])]),
+       (2, [(30, [0]), (31, [1, 2]), (32, []), (33, [4, 3])])], true⟩ ∧
+    exTree.dropLevel 0 = .ok ⟨true, [1, 2],
+      [(1, [(21, [31, 32]), (20, [30]), (22, [33])]),
+       (2, [(30, [0]), (31, [1, 2]), (32, []), (33, [4, 3])])], true⟩ := by decide
+
+/-- `drop_leaf_level()`: the parents of the leaves become the leaves. The
+result is well formed, every other level's dict is untouched, the new leaves
+are the nodes of the old last-but-one level, each owning the rows of its former
+children, and no row is lost or duplicated. -/
+theorem drop_leaf_preserves (t : RawTree) (w : WF t) (h2 : 2 ≤ t.hierarchy.length) :
+    ∃ t', t.dropLevel (t.hierarchy.getLast w.hNe) true = .ok t' ∧
+      WF t' ∧
+      t'.hierarchy = t.hierarchy.dropLast ∧
+      (∀ j (hj : j + 2 < t.hierarchy.length),
+        t'.level (t.hierarchy[j]'(by omega)) = t.level (t.hierarchy[j]'(by omega))) ∧
+      t'.nodesAt (t.hierarchy[t.hierarchy.length - 2]'(by omega)) =
+        t.nodesAt (t.hierarchy[t.hierarchy.length - 2]'(by omega)) ∧
+      (∀ p, t'.entry (t.hierarchy[t.hierarchy.length - 2]'(by omega)) p =
+        (t.entry (t.hierarchy[t.hierarchy.length - 2]'(by omega)) p).flatMap
+          (t.entry (t.hierarchy.getLast w.hNe))) ∧
+      t'.allRows.Perm t.allRows := by
+  have hlast : t.hierarchy.getLast w.hNe = t.hierarchy[t.hierarchy.length - 1]'(by omega) :=
+    List.getLast_eq_getElem _
+  have hi : t.hierarchy.length - 1 < t.hierarchy.length := by omega
+  obtain ⟨t', hd, hraw, w'⟩ := dropLevel_eq_ok w hi h2 (allowLeaf := true) (Or.inl rfl)
+  have s := strict_of_validate w.valid
+  refine ⟨t', by rw [hlast]; exact hd, w', ?_, ?_, ?_, ?_, drop_allRows_perm s w.dict w.hNodup hi hraw⟩
+  · rw [drop_hierarchy w.hNodup hi hraw, List.dropLast_eq_take, List.eraseIdx_eq_take_drop_succ]
+    rw [List.drop_eq_nil_of_le (by omega), List.append_nil]
+  · intro j hj
+    apply drop_level_other w.hNodup hi hraw
+    · intro e; have := (List.getElem_inj w.hNodup).1 e; omega
+    · intro h0 e; have := (List.getElem_inj w.hNodup).1 e; omega
+  · apply drop_nodesAt w.hNodup hi hraw
+    intro e; have := (List.getElem_inj w.hNodup).1 e; omega
+  · intro p
+    have h0 : 0 < t.hierarchy.length - 1 := by omega
+    have := drop_entry_parent w.hNodup hi hraw h0 p
+    simp only [hlast]
+    have e : t.hierarchy.length - 1 - 1 = t.hierarchy.length - 2 := by omega
+    simp only [e] at this
+    exact this
+
+example : exTree.dropLevel 2 true = .ok ⟨true, [0, 1],
+      [(1, [(21, [1, 2]), (20, [0]), (22, [4, 3])]),
+       (0, [(10, [21, 20]), (11, [22])])], true⟩ := by decide
+
+/-- the refusals of `_drop_level`, in the order the code tests them -/
+theorem drop_refusals (t : RawTree) (l : Level) (allowLeaf : Bool) :
+    (t.hierarchy.length = 1 → t.dropLevel l allowLeaf = .error .flatTree) ∧
+    (t.hierarchy.length ≠ 1 → l ∉ t.hierarchy → t.dropLevel l allowLeaf = .error .levelNotInTree) ∧
+    (t.hierarchy.length ≠ 1 → l ∈ t.hierarchy → t.leafLevel = some l →
+      t.dropLevel l false = .error .isLeafLevel) := by
+  refine ⟨fun h => ?_, fun h hl => ?_, fun h hl hll => ?_⟩
+  · simp [dropLevel, dropLevelRaw_flat h]
+  · simp [dropLevel, dropLevelRaw_not_in h hl]
+  · simp [dropLevel, dropLevelRaw_leaf h hl hll]
+
+example : exTree.dropLevel 2 = .error .isLeafLevel ∧ exTree.dropLevel 9 = .error .levelNotInTree ∧
+    exTree.flatten.dropLevel 2 = .error .flatTree := by decide
+
+/-- *"serialising then re-reading preserve[s] the leaf set and each leaf's
+ancestor at every remaining level"*, for `to_str(drop_cells=True)` (plain
+`to_str` / `from_str` is the identity on the data; JSON itself is trusted): the
+tree without its cell lists is well formed, has the same hierarchy, the same
+nodes at every level (in the same order), the same dicts above the leaf level,
+empty row lists, and every query that does not read rows answers the same:
+`parents`, ancestors, `as_leaves`. -/
+theorem drop_cells_preserves (t : RawTree) (w : WF t) :
+    WF t.dropCells ∧
+    t.dropCells.hierarchy = t.hierarchy ∧
+    (∀ l, t.dropCells.nodesAt l = t.nodesAt l) ∧
+    (∀ l, t.leafLevel ≠ some l → t.dropCells.level l = t.level l) ∧
+    (∀ n, t.dropCells.entry (t.hierarchy.getLast w.hNe) n = []) ∧
+    (∀ l n, t.dropCells.parents l n = t.parents l n) ∧
+    (∀ l n al, t.dropCells.ancestorAt l n al = t.ancestorAt l n al) ∧
+    (∀ l n, t.dropCells.asLeaves l n = t.asLeaves l n) :=
+  ⟨dropCells_wf w, dropCells_hierarchy, fun l => dropCells_nodesAt w l,
+    fun _ hl => dropCells_level_other hl, fun n => dropCells_entry_leaf w n,
+    fun l n => dropCells_parents w l n, fun l n al => dropCells_ancestorAt w l n al,
+    fun l n => dropCells_asLeaves w l n⟩
+
+example : exTree.dropCells.level 2 = [(30, []), (31, []), (32, []), (33, [])] ∧
+    exTree.dropCells.level 1 = exTree.level 1 := by decide
+
+/-- composition: dropping any non-leaf level and then flattening gives exactly
+the flattened original (as data), and flattening twice is flattening once.
+(Chains of drops stay inside `WF` by `drop_preserves`, so every theorem here
+applies again to the result.) -/
+theorem flatten_after_drop (t : RawTree) (w : WF t) :
+    (∀ i (hi : i + 1 < t.hierarchy.length) (allowLeaf : Bool) (t' : RawTree),
+      t.dropLevel (t.hierarchy[i]'(by omega)) allowLeaf = .ok t' → t'.flatten = t.flatten) ∧
+    t.flatten.flatten = t.flatten :=
+  ⟨fun _ hi _ _ ht' => flatten_drop_eq w hi ht', flatten_flatten w⟩
+
+example : (exTree.dropLevel 1).map (·.flatten) = .ok exTree.flatten := by decide
+
+/-! ### building the tree from per-cell label columns -/
+
+/-- *"building it from per-cell label columns reproduces exactly the label
+combinations present"*.  `cols` = the column hierarchy (distinct names, at
+least one), `recs` = one list of labels per cell, one label per column.
+`get_taxonomy_tree` accepts the records iff the label columns are functionally
+nested (cells with the same child label have the same parent label); the tree
+it returns is well formed, its levels are the columns, the nodes of a level are
+the labels occurring in that column, `c` is a child of `p` iff some cell
+carries `p` and `c` in adjacent columns, the rows of a leaf are exactly the
+indices of the cells carrying that leaf label, and the root-to-leaf paths of
+the tree are exactly the label tuples of the cells. -/
+theorem from_records (cols : List Level) (recs : List (List Node)) (hc : cols.Nodup)
+    (hne : cols ≠ []) (hr : RecsOK cols recs) :
+    ((∃ t, fromRecords cols recs = .ok t) ↔ Nested cols recs) ∧
+    ∀ t, fromRecords cols recs = .ok t →
+      WF t ∧ t.hierarchy = cols ∧
+      (∀ j (hj : j < cols.length) p,
+        p ∈ t.nodesAt cols[j] ↔ ∃ r, r ∈ recs ∧ r[j]? = some p) ∧
+      (∀ j (hj : j + 1 < cols.length) p c,
+        (p ∈ t.nodesAt (cols[j]'(by omega)) ∧ c ∈ t.entry (cols[j]'(by omega)) p) ↔
+          ∃ r, r ∈ recs ∧ r[j]? = some p ∧ r[j+1]? = some c) ∧
+      (∀ leaf i, (leaf ∈ t.nodesAt (cols.getLast hne) ∧ i ∈ t.entry (cols.getLast hne) leaf) ↔
+          ∃ r, recs[i]? = some r ∧ r.getLast? = some leaf) ∧
+      (∀ ns, IsPath t ns ↔ ns ∈ recs) := by
+  have hd := fromRecordsRaw_dictOK hc recs
+  have hiff : (fromRecordsRaw cols recs).validate = .ok () ↔ Nested cols recs := by
+    rw [validate_ok_iff (t := fromRecordsRaw cols recs) hc]
+    rw [fromRecordsRaw_strict_iff hc hr]
+    exact ⟨fun h => h.1, fun h => ⟨h, hne⟩⟩
+  have hok : ∀ t, fromRecords cols recs = .ok t →
+      t = fromRecordsRaw cols recs ∧ (fromRecordsRaw cols recs).validate = .ok () := by
+    intro t ht
+    simp only [fromRecords] at ht
+    split at ht
+    · cases ht
+    · rename_i hv
+      cases ht
+      exact ⟨rfl, hv⟩
+  refine ⟨⟨fun ⟨t, ht⟩ => hiff.1 (hok t ht).2, fun hn => ?_⟩, fun t ht => ?_⟩
+  · refine ⟨fromRecordsRaw cols recs, ?_⟩
+    simp only [fromRecords, hiff.2 hn]
+  · obtain ⟨rfl, hv⟩ := hok t ht
+    have hn := hiff.1 hv
+    refine ⟨⟨hv, hc, hne, hd⟩, rfl, fun j hj p => fromRecordsRaw_nodes hc hr j hj p,
+      fun j hj p c => ?_, fun leaf i => ?_, fun ns => fromRecordsRaw_paths hc hne hr hn ns⟩
+    · rw [← isChild_iff hd]
+      exact fromRecordsRaw_children hc hr j hj p c
+    · rw [← isChild_iff hd]
+      exact fromRecordsRaw_rows hc hne hr leaf i
+
+example : fromRecords [0, 1] [[10, 20], [10, 21], [11, 22], [10, 20]] =
+    .ok ⟨true, [0, 1],
+          [(0, [(10, [20, 21]), (11, [22])]), (1, [(20, [0, 3]), (21, [1]), (22, [2])])], true⟩ ∧
+    fromRecords [0, 1] [[10, 20], [11, 20]] = .error .twoParents := by decide
+
+/-- The tree lemma behind C17 (*"flattening or dropping a level equals mapping
+on the reduced taxonomy"*): for nested label columns, building the tree from
+all columns and then dropping level `cols[i]` (any level; the leaf level with
+`allow_leaf`) succeeds and gives the same tree as building it from the records
+with column `i` erased — same hierarchy, same nodes at every level, same
+children / rows for every node, up to the order inside the child / row lists
+(`TreeEquiv`, CTM/Lemmas/TreeCommute.lean). -/
+theorem drop_commutes_build (cols : List Level) (recs : List (List Node)) (hc : cols.Nodup)
+    (hr : RecsOK cols recs) (hn : Nested cols recs) {i : Nat} (hi : i < cols.length)
+    (h2 : 2 ≤ cols.length) (allowLeaf : Bool) (hl : allowLeaf = true ∨ i + 1 < cols.length) :
+    ∃ t', (fromRecordsRaw cols recs).dropLevel cols[i] allowLeaf = .ok t' ∧
+      TreeEquiv t' (fromRecordsRaw (cols.eraseIdx i) (recs.map (·.eraseIdx i))) ∧
+      Nested (cols.eraseIdx i) (recs.map (·.eraseIdx i)) :=
+  let ⟨t', h1, h2'⟩ := RawTree.drop_commutes_build hc hr hn hi h2 allowLeaf hl
+  ⟨t', h1, h2', nested_eraseIdx hr hn i⟩
+
+example : (fromRecordsRaw [0, 1, 2] [[10, 20, 30], [10, 21, 31], [11, 22, 32], [10, 20, 33]]).dropLevel 1
+      = .ok ⟨true, [0, 2], [(0, [(10, [30, 33, 31]), (11, [32])]),
+              (2, [(30, [0]), (31, [1]), (32, [2]), (33, [3])])], true⟩ ∧
+    fromRecordsRaw [0, 2] [[10, 30], [10, 31], [11, 32], [10, 33]]
+      = ⟨true, [0, 2], [(0, [(10, [30, 31, 33]), (11, [32])]),
+              (2, [(30, [0]), (31, [1]), (32, [2]), (33, [3])])], true⟩ := by decide
+
+/-! ### constants re-extracted from the current source (translator) -/
+
+/-- Generated obligation: `lean/CTM/Generated/TreeConsts.lean` is rewritten by
+`./check C10` from the current source of `validate_taxonomy_tree`.  The
+translator recognised the function, the keys it ignores are exactly the three
+the model and the harness set aside, and both child-list tests (repeated
+child, no children) are present — so `validate` (= `validateWith true`) is the
+validator of the source as it stands. -/
+theorem generated_validator_constants :
+    Generated.TreeConsts.recognised = true ∧
+    Generated.TreeConsts.ignorableKeys = ["hierarchy_mapper", "metadata", "name_mapper"] ∧
+    Generated.TreeConsts.repeatedChildTest = true ∧
+    Generated.TreeConsts.noChildrenTest = true ∧
+    ∀ t : RawTree, t.validate = t.validateWith Generated.TreeConsts.strictChildren := by
+  refine ⟨by decide, by decide, by decide, by decide, fun t => rfl⟩
+
 end CTM.C10
